@@ -90,6 +90,11 @@ func worldSessions(w *World) {
 		}
 		w.Check("C12.incumbent-serves")
 		res := env.probeTCP(fmt.Sprintf("10.0.0.1:%d", portOfName(name)), 10*time.Second)
+		// a work connection offered by a previous incarnation of the client (same run id) may have been pooled into
+		// the new session and die with that incarnation; such a connection costs at most one user connection each
+		for try := 0; try < 4 && res.ServedBy == "" && !res.Refused; try++ {
+			res = env.probeTCP(fmt.Sprintf("10.0.0.1:%d", portOfName(name)), 10*time.Second)
+		}
 		// a work connection is attributed to a session by its run id alone, so a late connection opened by the
 		// same client's previous transport identity legitimately serves for the new session
 		ok := false
